@@ -4,7 +4,8 @@
 `facts` folds the literal (and `T.update(OTHER)` / `S.update(OTHER.keys())` of known tables).  A rule that compares such a table
 with a reference must see the *final* content - or know that it cannot: `settle(facts, name)` folds the remaining module-level
 statements that modify the table with constant operands into facts.tables / facts.sets / facts.consts (idempotent), and raises
-AnalysisError when the name is modified anywhere in a way that is not folded (inside a function, with computed operands, rebound).
+AnalysisError when the name is modified in a way that is not folded (with computed operands, rebound; inside a function unless the
+caller only judges the table as it stands after import).
 """
 import ast
 
@@ -22,7 +23,7 @@ def _const(node, facts):
         raise AnalysisError('table is modified with a value the rules cannot fold: {}'.format(unparse(node)[:80]))
 
 
-def settle(facts, name):
+def settle(facts, name, runtime_writes_matter=True):
     if getattr(facts, '_settled', None) is None:
         facts._settled = set()
     if name in facts._settled:
@@ -110,8 +111,13 @@ def settle(facts, name):
         if bad is None:
             continue
         st = bad
+        inside_function = False
         while st is not None and id(st) not in module_stmts:
+            inside_function = inside_function or isinstance(st, (ast.FunctionDef, ast.AsyncFunctionDef, ast.Lambda))
             st = getattr(st, '_parent', None)
+        inside_function = inside_function or isinstance(st, (ast.FunctionDef, ast.AsyncFunctionDef, ast.ClassDef))
+        if inside_function and not runtime_writes_matter:
+            continue          # the caller judges the table as it is after import; what a function adds while running is another rule's matter
         if st is not None and id(st) in handled:
             continue
         raise AnalysisError('{} is also modified at line {} (`{}`) in a way the rules do not fold: its final content is not known'.format(
